@@ -19,4 +19,8 @@ CHECKS = {
         text='No counterexample to merge soundness among all 1.7M ordered pairs of the <=2-named universe (exhaustive, 64 call shapes each), all 1.6M triples of the <=1-named universe, 2M sampled triples and 32k Hypothesis n-tuples (n<=4, <=5 named parameters); acceptance decided by a CPython binding model re-validated against real defs in the same run.',
         design_ref='DESIGN.md 2/C01', technique='bounded-exhaustive enumeration + Hypothesis tuples vs CPython-binding oracle',
         note='Trusted: vlib/cpbind.py binding model (self-checked against real defs each run); call shapes up to 3 positionals / 4 keyword names in E2, P+2 positionals / 3 keywords in E1.'),
+    'C03': dict(
+        text='Exactness (iff), raise-iff-infeasible, order independence over all permutations, mask(sig,0)/composition laws and the hide_* flag clauses hold on every signature of the <=3-named universe (1 972 signatures, exhaustive in thorough: 1.7M mask calls compared on 160 call shapes) plus 48k Hypothesis cases with <=5 named parameters.',
+        design_ref='DESIGN.md 2/C03', technique='bounded-exhaustive enumeration + Hypothesis vs CPython-binding oracle (iff), metamorphic permutation/composition relations',
+        note='Trusted: vlib/cpbind.py (self-checked). Results compared up to keyword-only parameter order (not significant to calls or to inspect equality). Flag clause (f) uses the most lenient reading of "some choice of hidden arguments".'),
 }
